@@ -1051,8 +1051,10 @@ def main(argv=None):
         print("  INVALID SAMPLE %r" % src)
     tot = sum(v[0] for v in st["mut"].values())
     det = sum(v[1] for v in st["mut"].values())
-    print("== negative controls: %d mutations, %d detected (%.2f%%), %d allowed-by-canonicalisation skipped"
-          % (tot, det, 100.0 * det / max(tot, 1), st["allowed"]))
+    print("== negative controls: %d mutations, %d detected (%.2f%%); %d mutations that only touch a documented "
+          "canonicalisation set aside (%d of them compare eq)"
+          % (tot, det, 100.0 * det / max(tot, 1), st["allowed"], st.get("allowed_eq", 0)))
+    bad += tot - det
     for k, (t, d) in sorted(st["mut"].items()):
         print("   %-7s %5d / %5d" % (k, d, t))
     for kind, info, out, mutated in st["missed"]:
